@@ -125,7 +125,7 @@ PLANS = {
     "C16": {
         "level": "proof",
         "sidecars": ["ligand"],
-        "extras": [],
+        "extras": [{"name": "c16_complex", "module": "bounded.c16_complex", "func": "run", "python": "venv"}],
         "explanation": "equilibrate: per-cycle conservation invariant on symmetric multigraph shapes, name-independence",
     },
     "C17": {
